@@ -53,6 +53,11 @@ VP_DECLARE_VEC(vec_sz, size_t)
  * over-approximation (a zero-initialised symbolic-size array costs >11 GB in CBMC 6.11). */
 extern size_t vp_gk, vp_gj;
 #ifdef VP_NATIVE
+#define VP_COPY_AT_GHOST(d, s, n) { size_t vp_i_; for (vp_i_ = 0; vp_i_ < (n); ++vp_i_) (d)[vp_i_] = (s)[vp_i_]; }
+#else
+#define VP_COPY_AT_GHOST(d, s, n) { if (vp_gk < (n)) (d)[vp_gk] = (s)[vp_gk]; if (vp_gj < (n)) (d)[vp_gj] = (s)[vp_gj]; }
+#endif
+#ifdef VP_NATIVE
 #define VP_ZERO_AT_GHOST(p, n) { size_t vp_i_; for (vp_i_ = 0; vp_i_ < (n); ++vp_i_) (p)[vp_i_] = 0; }
 #else
 #define VP_ZERO_AT_GHOST(p, n) { if (vp_gk < (n)) (p)[vp_gk] = 0; if (vp_gj < (n)) (p)[vp_gj] = 0; }
@@ -78,15 +83,8 @@ static inline size_t vp_back(size_t n)
 #define VP_MAXN ((size_t)1 << 40)
 #endif
 
-#define VP_DEFINE_VEC_OPS(NAME, ELEM)                                                        \
+#define VP_DEFINE_VEC_OPS_STRUCT(NAME, ELEM)                                                        \
   static inline void vp_##NAME##_init(NAME *v) { v->p = 0; v->n = 0; v->cap = 0; }           \
-  static inline void vp_##NAME##_new(NAME *v, size_t n)                                      \
-  {                                                                                          \
-    __CPROVER_assert(n <= VP_MAXN, "vector size within the verified bound");                 \
-    v->p = (ELEM *)malloc((n ? n : 1) * sizeof(ELEM)); v->n = n; v->cap = n;                 \
-    __CPROVER_assume(v->p != 0);                                                             \
-    VP_ZERO_AT_GHOST(v->p, n)                                                                \
-  }                                                                                          \
   static inline void vp_##NAME##_reserve(NAME *v, size_t c)                                  \
   {                                                                                          \
     __CPROVER_assert(v->n == 0, "reserve on an empty vector (only pattern used)");           \
@@ -99,11 +97,37 @@ static inline size_t vp_back(size_t n)
     __CPROVER_assert(v->n < v->cap, "push_back within reserved capacity");                   \
     v->p[v->n] = x; v->n = v->n + 1;                                                         \
   }                                                                                          \
+  static inline void vp_##NAME##_copy(NAME *v, const NAME *src)                              \
+  {                                                                                          \
+    /* copy of a vector: fresh storage, equal AT the ghost indices (sound over-approximation) */ \
+    size_t n = src->n;                                                                       \
+    __CPROVER_assert(n <= VP_MAXN, "vector size within the verified bound");                 \
+    v->p = (ELEM *)malloc((n ? n : 1) * sizeof(ELEM)); v->n = n; v->cap = n;                 \
+    __CPROVER_assume(v->p != 0);                                                             \
+    VP_COPY_AT_GHOST(v->p, src->p, n)                                                        \
+  }                                                                                          \
+  static inline ELEM *vp_##NAME##_emplace(NAME *v)                                           \
+  {                                                                                          \
+    __CPROVER_assert(v->n < v->cap, "emplace_back within reserved capacity");                \
+    v->n = v->n + 1;                                                                         \
+    return &v->p[v->n - 1];                                                                  \
+  }                                                                                          \
   static inline void vp_##NAME##_erase(NAME *v, size_t from, size_t to)                      \
   {                                                                                          \
     __CPROVER_assert(from <= to && to == v->n, "erase(begin()+k, end()) with k <= size()");  \
     v->n = from;                                                                             \
   }
+
+#define VP_DEFINE_VEC_NEW(NAME, ELEM) \
+  static inline void vp_##NAME##_new(NAME *v, size_t n)                                      \
+  {                                                                                          \
+    __CPROVER_assert(n <= VP_MAXN, "vector size within the verified bound");                 \
+    v->p = (ELEM *)malloc((n ? n : 1) * sizeof(ELEM)); v->n = n; v->cap = n;                 \
+    __CPROVER_assume(v->p != 0);                                                             \
+    VP_ZERO_AT_GHOST(v->p, n)                                                                \
+  }
+
+#define VP_DEFINE_VEC_OPS(NAME, ELEM) VP_DEFINE_VEC_OPS_STRUCT(NAME, ELEM) VP_DEFINE_VEC_NEW(NAME, ELEM)
 
 VP_DEFINE_VEC_OPS(vec_T, T)
 VP_DEFINE_VEC_OPS(vec_sz, size_t)
